@@ -48,6 +48,7 @@ from kopf._cogs.aiokits import aiotasks, aiotime, aiotoggles
 from kopf._cogs.clients import patching
 from kopf._cogs.configs import configuration
 from kopf._cogs.helpers import hostnames
+from kopf._cogs.helpers import veriftrace
 from kopf._cogs.structs import bodies, patches, references
 
 logger = logging.getLogger(__name__)
@@ -149,6 +150,12 @@ async def process_peering_event(
         if conflicts_found.is_on():
             logger.info(f"Resuming operations after the pause. Conflicting operators with the same priority are gone.")
             await conflicts_found.turn_to(False)
+
+    if veriftrace.enabled:
+        veriftrace.emit('peer.eval', identity=identity, rv=meta.get('resourceVersion'),
+                        dead=[peer.identity for peer in dead_peers], prio=[peer.identity for peer in prio_peers],
+                        same=[peer.identity for peer in same_peers],
+                        paused=None if conflicts_found is None else conflicts_found.is_on())
 
     # Either wait for external updates (and exit when they arrive), or until the blocking peers
     # are expected to expire, and force the immediate re-evaluation by a certain change of self.
